@@ -511,3 +511,88 @@ func init() {
 		return c.WriteLean("Lookup", body)
 	}
 }
+
+// ---- the write path behind MsgRegister: x/tokenregistry/keeper/keeper.go SetToken ---------------
+// Fact: which fields of the entries ALREADY in the registry the function reads (selectors on
+// <wl>.Entries[...] or on a variable bound to one), how many statements assign to a field of the
+// INCOMING entry, whether the incoming entry is stored verbatim at the found index
+// (`wl.Entries[i] = entry`) and appended verbatim otherwise (`append(wl.Entries, entry)`).
+func init() {
+	passes["settoken"] = func(c *Ctx) error {
+		files, err := c.ParseDir("x/tokenregistry/keeper")
+		if err != nil {
+			return err
+		}
+		fd := FindFunc(files, "keeper", "SetToken")
+		var fields []string
+		mutations, replaces, appends := 0, false, false
+		if fd != nil && fd.Body != nil && fd.Type.Params != nil && len(fd.Type.Params.List) == 2 && len(fd.Type.Params.List[1].Names) == 1 {
+			in := fd.Type.Params.List[1].Names[0].Name
+			reg := ""
+			oldVars := map[string]bool{}
+			ast.Inspect(fd.Body, func(n ast.Node) bool {
+				if as, ok := n.(*ast.AssignStmt); ok && len(as.Lhs) == len(as.Rhs) {
+					for i := range as.Rhs {
+						src := c.Src(as.Rhs[i])
+						if call, ok := as.Rhs[i].(*ast.CallExpr); ok {
+							if sel, ok := call.Fun.(*ast.SelectorExpr); ok && sel.Sel.Name == "GetRegistry" {
+								if id, ok := as.Lhs[i].(*ast.Ident); ok {
+									reg = id.Name
+								}
+							}
+						}
+						if id, ok := as.Lhs[i].(*ast.Ident); ok && reg != "" && strings.HasPrefix(src, reg+".Entries[") {
+							oldVars[id.Name] = true
+						}
+					}
+				}
+				if rs, ok := n.(*ast.RangeStmt); ok && reg != "" && c.Src(rs.X) == reg+".Entries" && rs.Value != nil {
+					if id, ok := rs.Value.(*ast.Ident); ok {
+						oldVars[id.Name] = true
+					}
+				}
+				return true
+			})
+			seen := map[string]bool{}
+			ast.Inspect(fd.Body, func(n ast.Node) bool {
+				switch x := n.(type) {
+				case *ast.SelectorExpr:
+					base := c.Src(x.X)
+					if reg != "" && (strings.HasPrefix(base, reg+".Entries[") || oldVars[base]) && !seen[x.Sel.Name] {
+						seen[x.Sel.Name] = true
+						fields = append(fields, x.Sel.Name)
+					}
+				case *ast.AssignStmt:
+					for i, l := range x.Lhs {
+						ls := c.Src(l)
+						if strings.HasPrefix(ls, in+".") || ls == "*"+in {
+							mutations++
+						}
+						if i < len(x.Rhs) {
+							rs := c.Src(x.Rhs[i])
+							if reg != "" && strings.HasPrefix(ls, reg+".Entries[") && !strings.Contains(ls, "].") && rs == in {
+								replaces = true
+							}
+							if reg != "" && ls == reg+".Entries" && rs == fmt.Sprintf("append(%s.Entries, %s)", reg, in) {
+								appends = true
+							}
+						}
+					}
+				case *ast.IncDecStmt:
+					if strings.HasPrefix(c.Src(x.X), in+".") {
+						mutations++
+					}
+				}
+				return true
+			})
+		}
+		sort.Strings(fields)
+		var q []string
+		for _, f := range fields {
+			q = append(q, LeanStr(f))
+		}
+		body := "import Sif.Model.Registry\n/- x/tokenregistry/keeper/keeper.go SetToken: what the write path of MsgRegister reads and stores -/\nnamespace Sif.Generated.SetToken\nopen Sif.Registry\n\n" +
+			fmt.Sprintf("def setToken : SetTokenFacts := ⟨[%s], %d, %s, %s⟩\n\nend Sif.Generated.SetToken\n", strings.Join(q, ", "), mutations, b2l(replaces), b2l(appends))
+		return c.WriteLean("SetToken", body)
+	}
+}
